@@ -229,7 +229,18 @@ def gen_c05(seed_i):
            "lat_seed": rng.randrange(1 << 30), "sched": sched}
     if rng.random() < 0.4:
         cfg["resp_page"] = rng.choice([1, 1, 2])  # responses larger than this are paginated through get_execution_state
+    if rng.random() < 0.35:
+        # fault: the k-th API call fails (the batch may or may not have been applied); "page" fails a response page fetch
+        cfg["fail"] = {"call": rng.choice([1, 1, 2, 2, 3, 4, 6]), "where": rng.choice(["checkpoint", "checkpoint", "checkpoint", "page"]),
+                       "applied": rng.random() < 0.3, "exc": rng.choice(["RuntimeError", "CheckpointError", "ConnectionError"])}
     return cfg
+
+
+def _fail_exc(f):
+    if f["exc"] == "CheckpointError":
+        ex = seams.sdk("exceptions")
+        return ex.CheckpointError("injected failure", ex.CheckpointErrorCategory.INVOCATION)
+    return {"RuntimeError": RuntimeError, "ConnectionError": ConnectionError}[f["exc"]]("injected failure")
 
 
 class _ProtoService:
@@ -245,6 +256,9 @@ class _ProtoService:
         self.pages = {}
         self.page_n = 0
         self.rng = random.Random(cfg.get("lat_seed", 0))
+        self.n_ckpt = 0
+        self.n_page = 0
+        self.failed = False
 
     def checkpoint(self, durable_execution_arn, checkpoint_token, updates, client_token):
         lsvc = seams.sdk("lambda_service")
@@ -253,12 +267,25 @@ class _ProtoService:
         size = sum(len(json.dumps(u.to_dict()).encode()) for u in updates)
         self.rec("api-begin", token=checkpoint_token, names=names, size=size)
         self.s.sleep(lo + (hi - lo) * self.rng.random(), True, "api")
+        self.n_ckpt += 1
+        f = self.cfg.get("fail")
+        if self.failed:
+            self.rec("api-after-failure", names=names)
+        fail_now = bool(f) and f["where"] == "checkpoint" and f["call"] == self.n_ckpt
+        if fail_now and not f["applied"]:
+            self.failed = True
+            self.rec("api-fail", names=names, applied=False)
+            raise _fail_exc(f)
         self.calls.append({"token": checkpoint_token, "expected": self.expected, "names": names, "size": size,
                            "sizes": [len(json.dumps(u.to_dict()).encode()) for u in updates]})
         self.tok += 1
         self.expected = f"tok-{self.tok}"
         self.rec("api-applied", names=names)
         self.s.sleep(lo * 0.5, True, "api-resp")
+        if fail_now:
+            self.failed = True
+            self.rec("api-fail", names=names, applied=True)
+            raise _fail_exc(f)
         ops = [lsvc.Operation(operation_id=u.operation_id, operation_type=u.operation_type, status=lsvc.OperationStatus.SUCCEEDED,
                               name=u.name) for u in updates]
         page = self.cfg.get("resp_page")
@@ -277,6 +304,14 @@ class _ProtoService:
         lo, hi = self.cfg["latency"]
         self.rec("page-begin", marker=next_marker)
         self.s.sleep(lo + (hi - lo) * self.rng.random(), True, "api-page")
+        self.n_page += 1
+        f = self.cfg.get("fail")
+        if self.failed:
+            self.rec("api-after-failure", names=[])
+        if f and f["where"] == "page" and f["call"] == self.n_page:
+            self.failed = True
+            self.rec("api-fail", names=[], applied=True, page=True)
+            raise _fail_exc(f)
         ops = self.pages.pop(next_marker)
         page = self.cfg.get("resp_page") or 1000
         marker = None
@@ -327,7 +362,13 @@ def run_c05(cfg):
                     upd = lsvc.OperationUpdate.create_step_succeed(
                         ident.OperationIdentifier(operation_id=f"id-{pi}-{oi}", parent_id=None, name=name), payload="x" * op["size"])
                 rec("cp-call", p=pi, o=oi, name=name if upd is not None else None, sync=op["sync"])
-                es.create_checkpoint(upd, is_sync=op["sync"])
+                try:
+                    es.create_checkpoint(upd, is_sync=op["sync"])
+                except _sim.SimKilled:
+                    raise
+                except BaseException as e:  # noqa: BLE001 - the failure a caller is released with
+                    rec("cp-err", p=pi, o=oi, name=name if upd is not None else None, sync=op["sync"], cls=type(e).__name__)
+                    break
                 rec("cp-ret", p=pi, o=oi, name=name if upd is not None else None, sync=op["sync"],
                     merged=(f"id-{pi}-{oi}" in es.operations) if upd is not None else None)
             rec("producer-done", p=pi)
@@ -361,7 +402,7 @@ def oracle_c05(cfg, r):
     calls = svc.calls if svc else []
     b = cfg["batch"]
     if r["reason"] != "main-done":
-        blocked = [e for e in log if e["k"] == "cp-call" and not any(x["k"] == "cp-ret" and x["p"] == e["p"] and x["o"] == e["o"] for x in log)]
+        blocked = [e for e in log if e["k"] == "cp-call" and not any(x["k"] in ("cp-ret", "cp-err") and x["p"] == e["p"] and x["o"] == e["o"] for x in log)]
         out.append(V("C05", "caller-never-released",
                      f"checkpoint pipeline wedged ({r['reason']}); callers still blocked: {[(e['p'], e['o'], e['name']) for e in blocked][:6]}",
                      table=r["hang_table"]))
@@ -377,6 +418,18 @@ def oracle_c05(cfg, r):
     ret_by = {(e["p"], e["o"]): e["s"] for e in log if e["k"] == "cp-ret"}
     handed = [e["name"] for e in log if e["k"] == "cp-call" and e["name"] is not None
               and ((not e["sync"] and ret_by.get((e["p"], e["o"]), 1 << 60) < last_sync_ret) or (e["sync"] and (e["p"], e["o"]) in ret_by))]
+    failure = next((e for e in log if e["k"] == "api-fail"), None)
+    if failure is not None:
+        # after a failure only what was ordered before a successfully returned synchronous checkpoint must have arrived
+        sync_ok_calls = [e["s"] for e in log if e["k"] == "cp-call" and e["sync"] and (e["p"], e["o"]) in ret_by]
+        last_ok_call = max(sync_ok_calls, default=0)
+        handed = [e["name"] for e in log if e["k"] == "cp-call" and e["name"] is not None
+                  and ((not e["sync"] and ret_by.get((e["p"], e["o"]), 1 << 60) < last_ok_call) or (e["sync"] and (e["p"], e["o"]) in ret_by))]
+    else:
+        for e in log:
+            if e["k"] == "cp-err":
+                out.append(V("C05", "spurious-error", f"checkpoint of {e['name']} raised {e['cls']} although no API call failed"))
+                break
     seen = {}
     for n in delivered:
         seen[n] = seen.get(n, 0) + 1
@@ -447,6 +500,18 @@ def reach_c05(cfg, r):
         out["oversize-update-sent"] = 1
     if any(len(c["names"]) == 0 for c in calls):
         out["empty-checkpoint-call"] = 1
+    f = next((e for e in r["log"] if e["k"] == "api-fail"), None)
+    if f is not None:
+        out["api-failure"] = 1
+        if f.get("page"):
+            out["page-fetch-failure"] = 1
+        n_err = sum(1 for e in r["log"] if e["k"] == "cp-err" and e["sync"] and e["s"] > f["s"])
+        calls_before = {(e["p"], e["o"]) for e in r["log"] if e["k"] == "cp-call" and e["s"] < f["s"]}
+        rel = [e for e in r["log"] if e["k"] == "cp-err" and (e["p"], e["o"]) in calls_before]
+        if len(rel) >= 2:
+            out["failure-released-2+-blocked-callers"] = 1
+        if n_err:
+            out["sync-caller-released-with-failure"] = 1
     if any(e["k"] == "api-paginated" for e in r["log"]):
         out["paginated-response"] = 1
     for pi, ops in enumerate(cfg["producers"]):
